@@ -155,6 +155,19 @@ Theorem C11_later_ops_complete_migration :
 Proof. exact later_ops_complete_migration_thm. Qed.
 Print Assumptions C11_later_ops_complete_migration.
 
+(* the premise CapOk of the previous theorem (mCapacity <= physical size of the newest table) holds in every state reachable from the empty container that has a table, for every history and failure schedule. *)
+Theorem C11_reachable_cap_ok :
+  forall (B : Type) (b0 : B) (decode : Z -> B -> Z) (upd_bound : B -> Z -> B) (h : Z -> Z) (cap : Z) 
+           (wf0 : bool) (start : Z -> Z -> Z) (next : Z -> Z -> Z -> Z) (logStart : Z) (calcCapacity shift : Z -> Z)
+           (nothrowReloc : bool),
+         kind_ok B decode upd_bound cap start next logStart shift ->
+         kind_ok2 cap start next calcCapacity ->
+         forall (os : list op) (s : hset B) (outs : list out),
+         run B b0 decode upd_bound h cap wf0 start next logStart calcCapacity shift nothrowReloc (hinit B) os = Some (s, outs) ->
+         gens B s <> [] -> CapOk B cap s.
+Proof. exact reachable_cap_ok. Qed.
+Print Assumptions C11_reachable_cap_ok.
+
 (* the hypotheses kind_ok hold for the concrete kinds used by the extracted model (mask start index, linear and triangular probing, exact max-probe bound, both growth policies). *)
 Theorem C11_concrete_kind_ok :
   forall c : config,
